@@ -84,6 +84,25 @@ pub fn mutate_field(doc: &Value, pointer: &str, p: &mut Prng) -> Option<(Value, 
     let key = pointer.rsplit('/').next().unwrap_or("").replace("~1", "/").replace("~0", "~");
     let node = doc.pointer(pointer)?.clone();
     let mutation;
+    // any node can simply disappear from its parent (a deleted map entry / list element)
+    if p.chance(1, 6) {
+        let mut gone = doc.clone();
+        let parent = if parent_ptr.is_empty() { Some(&mut gone) } else { gone.pointer_mut(parent_ptr) };
+        let removed = match parent {
+            Some(Value::Object(m)) => m.remove(&key).is_some(),
+            Some(Value::Array(a)) => match key.parse::<usize>() {
+                Ok(i) if i < a.len() => {
+                    a.remove(i);
+                    true
+                }
+                _ => false,
+            },
+            _ => false,
+        };
+        if removed && gone != *doc {
+            return Some((gone, FieldFault { pointer: pointer.to_string(), mutation: "entry-deleted".to_string() }));
+        }
+    }
     let choice = p.below(5);
     let replaced: Option<Value> = match (&node, choice) {
         (Value::Number(n), _) => {
@@ -242,4 +261,43 @@ pub fn first_difference(a: &Value, b: &Value, here: String) -> Option<String> {
             if a == b { None } else { Some(here) }
         }
     }
+}
+
+fn is_hash(s: &str) -> bool {
+    s.len() == 64 && s.bytes().all(|b| b.is_ascii_hexdigit())
+}
+
+/// Every 64-hex-digit string value of a document (interface hashes, dependency pins).
+pub fn hashes_in(v: &Value, out: &mut Vec<String>) {
+    match v {
+        Value::String(s) if is_hash(s) => out.push(s.clone()),
+        Value::Object(m) => m.values().for_each(|x| hashes_in(x, out)),
+        Value::Array(a) => a.iter().for_each(|x| hashes_in(x, out)),
+        _ => {}
+    }
+}
+
+/// Replace one hash-valued field by another *valid-looking* hash taken from `pool` (e.g. a
+/// dependency pin rewritten to the dependency's current interface hash).
+pub fn replace_hash(doc: &Value, pool: &[String], p: &mut Prng) -> Option<(Value, FieldFault)> {
+    let ptrs: Vec<String> = all_pointers(doc)
+        .into_iter()
+        .filter(|ptr| doc.pointer(ptr).and_then(|v| v.as_str()).map(is_hash).unwrap_or(false))
+        .collect();
+    if ptrs.is_empty() || pool.is_empty() {
+        return None;
+    }
+    for _ in 0..8 {
+        let ptr = p.pick(&ptrs).clone();
+        let cur = doc.pointer(&ptr)?.as_str()?.to_string();
+        let cands: Vec<&String> = pool.iter().filter(|h| **h != cur).collect();
+        if cands.is_empty() {
+            continue;
+        }
+        let new = (*p.pick(&cands)).clone();
+        let mut nd = doc.clone();
+        *nd.pointer_mut(&ptr)? = Value::String(new);
+        return Some((nd, FieldFault { pointer: ptr, mutation: "hash-replaced-by-another-hash".to_string() }));
+    }
+    None
 }
